@@ -435,6 +435,8 @@ Definition res_eqb := list_eqb (option_eqb nats_eqb).
 
 def _name_sets(rng, ctxo):
     names = sorted(set(ctxo.names))
+    if rng.random() < 0.15:
+        return []                     # the empty name list: keep / all select nothing, drop / skip remove nothing
     k = int(rng.integers(1, len(names) + 1))
     pick = [names[int(j)] for j in rng.choice(len(names), size=k, replace=False)]
     if rng.random() < 0.2:
@@ -621,6 +623,16 @@ def oracle_context(ctx, c, rng):
                          f'{len(set(byname) - set(wantn))} are not named {nm!r} by element.dofnames in basis-function order '
                          f'(nodal, edge, facet, interior); keep/drop/skip filter by the wrong names',
                          dict(data, facets=F.tolist(), name=nm, dofnames=c.names))
+    # the empty name list: the intersection with the empty set of names is empty; dropping / skipping no name changes nothing
+    v0 = b.get_dofs()
+    full = v0.flatten().tolist()
+    ctx.count(('empty-names', c.kind, c.name, m.t.tolist()), nontrivial=bool(full))
+    for what, got, want in (('keep([]).flatten()', v0.keep([]).flatten().tolist(), []), ('all([])', v0.all([]).tolist(), []),
+                            ('drop([]).flatten()', v0.drop([]).flatten().tolist(), full),
+                            ('get_dofs(skip=[]).flatten()', b.get_dofs(skip=[]).flatten().tolist(), full)):
+        if got != want:
+            ctx.fail('names:empty-list', f'{c.name} on {type(m).__name__}: get_dofs().{what} returns {len(got)} DOFs, expected {len(want)} '
+                     '(an empty list of names selects no name)', dict(data, call=what))
     # per-name dictionaries of a restricted view: drop one name, every kind
     both = c.counts[1] > 0 and c.counts[2] > 0 and np.asarray(b.edge_dofs).size > 0
     for nm in sorted(set(c.names)):
